@@ -341,14 +341,49 @@ func rulePathTab(w *World, r *Report, pkg *ssa.Package) {
 	}
 	rd := map[string][]prod{}
 	pe := pkg.Type("PathElement")
-	// the subject of NewPath's type switch: the operand asserted to jsonString
+	// the function that holds the per-element type switch: NewPath itself or a package function it hands the element to
+	rdFn := np
+	{
+		has := func(f *ssa.Function) bool {
+			found := false
+			allInstrs(f, func(in ssa.Instruction) {
+				if ta, ok := in.(*ssa.TypeAssert); ok && ta.CommaOk && typeName(ta.AssertedType) == "jsonString" {
+					found = true
+				}
+			})
+			return found
+		}
+		if !has(np) {
+			seenF := map[*ssa.Function]bool{np: true}
+			work := []*ssa.Function{np}
+			for len(work) > 0 && rdFn == np {
+				f := work[0]
+				work = work[1:]
+				allInstrs(f, func(in ssa.Instruction) {
+					c, ok := in.(ssa.CallInstruction)
+					if !ok {
+						return
+					}
+					if sf := staticCallee(c); sf != nil && sf.Blocks != nil && fnPkg(sf) == pkg.Pkg && !seenF[sf] {
+						seenF[sf] = true
+						if has(sf) && rdFn == np {
+							rdFn = sf
+						}
+						work = append(work, sf)
+					}
+				})
+			}
+		}
+		r.Fn(fnName(rdFn))
+	}
+	// the subject of the type switch: the operand asserted to jsonString
 	var subject ssa.Value
-	allInstrs(np, func(in ssa.Instruction) {
+	allInstrs(rdFn, func(in ssa.Instruction) {
 		if ta, ok := in.(*ssa.TypeAssert); ok && ta.CommaOk && typeName(ta.AssertedType) == "jsonString" {
 			subject = ta.X
 		}
 	})
-	for _, b := range np.Blocks {
+	for _, b := range rdFn.Blocks {
 		for _, in := range b.Instrs {
 			mi, ok := in.(*ssa.MakeInterface)
 			if !ok || !types.Identical(mi.Type(), pe.Type()) {
@@ -358,7 +393,7 @@ func rulePathTab(w *World, r *Report, pkg *ssa.Package) {
 			// the innermost node-type assertion whose true edge dominates this block
 			node := ""
 			var nodeBlk *ssa.BasicBlock
-			for _, bb := range np.Blocks {
+			for _, bb := range rdFn.Blocks {
 				for _, in2 := range bb.Instrs {
 					ta, ok := in2.(*ssa.TypeAssert)
 					if !ok || !ta.CommaOk || ta.X != subject {
@@ -366,7 +401,7 @@ func rulePathTab(w *World, r *Report, pkg *ssa.Package) {
 					}
 					for _, ref := range *ta.Referrers() {
 						if ex, ok := ref.(*ssa.Extract); ok && ex.Index == 1 {
-							for _, b3 := range np.Blocks {
+							for _, b3 := range rdFn.Blocks {
 								if cond, tE, _, okb := branchEdges(b3); okb && cond == ssa.Value(ex) && (tE.To() == b || edgeDominates(tE, b)) {
 									if nodeBlk == nil || nodeBlk.Dominates(tE.To()) {
 										node, nodeBlk = typeName(ta.AssertedType), tE.To()
@@ -378,7 +413,7 @@ func rulePathTab(w *World, r *Report, pkg *ssa.Package) {
 				}
 			}
 			empty := "any"
-			for _, b3 := range np.Blocks {
+			for _, b3 := range rdFn.Blocks {
 				cond, tE, fE, okb := branchEdges(b3)
 				if !okb {
 					continue
